@@ -153,3 +153,15 @@ Example C17_nil_data_in_a_partial :
   | _ => False
   end.
 Proof. vm_compute. reflexivity. Qed.
+
+(* ---- the known finding c17-control-in-helper-block, as a theorem about the faithful model ----
+   a continue inside the block of a block helper (blk writes [ block ]) in a loop body: the block
+   evaluates to the control value, its text (a1, a2) is lost and the loop never sees the continue;
+   the same source inline keeps the text and ends each iteration at the continue *)
+Theorem C17_control_in_helper_block_refuted :
+  match run_case [] (mkrcase (hx "3c253d20666f722028782920696e205b312c20325d207b20253e5b3c253d20626c6b2829207b20253e613c253d207820253e3c2520636f6e74696e756520253e623c25207d20253e5d3c25207d20253e") [(hx "626c6b", DGo 103%N [])] [] (ObsOk []) []),
+        run_case [] (mkrcase (hx "3c253d20666f722028782920696e205b312c20325d207b20253e5b613c253d207820253e3c2520636f6e74696e756520253e625d3c25207d20253e") [] [] (ObsOk []) []) with
+  | OOk via_helper _, OOk inline _ => via_helper = hx "5b5b5d5d5b5b5d5d" /\ inline = hx "5b61315b6132"
+  | _, _ => False
+  end.
+Proof. vm_compute. split; reflexivity. Qed.
